@@ -259,7 +259,7 @@ def dispatch(ctx):
         s = e.detail["sender"]
         sess_ty = {x["name"]: x["ty"] for x in ctx.facts.adt(SESSION)["variants"][0]["fields"]}
         # the collection the receiver is taken from: Session fields that hold stream senders
-        f = {a[2] for a in s if a[0] == "field" and a[1] == SESSION and "UnboundedSender<" in sess_ty.get(a[2], "")}
+        f = {a[2] for a in s if a[0] == "field" and a[1] == SESSION and ("UnboundedSender<" in sess_ty.get(a[2], "") or a[2] == "subscriptions")}
         calls = {a[1] for a in s if a[0] == "call"}
         keyf = {a[2] for a in s if a[0] == "field" and a[1].endswith("PublishRx")}
         ok = f == {"subscriptions"} and any(c.endswith("linear_search_by_key") for c in calls) and "subscription_identifier" in keyf
